@@ -151,7 +151,21 @@ func (g *G) smallAmount() string {
 // Mutator returns one journaled mutator line (never a snapshot / revert / boundary op).
 func (g *G) Mutator() string {
 	r := g.r
-	switch r.Intn(22) {
+	switch r.Intn(25) {
+	case 22: // SetStorage with 0..2 distinct slots
+		l := "setstorage " + g.addr()
+		n := r.Intn(3)
+		for i := 0; i < n && i < len(g.u.keys32); i++ {
+			l += " " + hx.Hex(g.u.keys32[i]) + " " + g.pick(g.u.vals32)
+		}
+		return l
+	case 23: // AddERC20Binding of a name no FT op of the scripts uses
+		name := []string{"bind1", "bind2"}[r.Intn(2)]
+		bind := common.GenerateERC20Binding(name)
+		pos := []uint64{0, 3, ^uint64(0)}[r.Intn(3)]
+		return fmt.Sprintf("addbinding %s %s %s %d %d", hx.Hex([]byte(name)), hx.Hex(bind[:]), g.addr(), pos, 18)
+	case 24:
+		return fmt.Sprintf("setdata %s %s %s", g.addr(), g.pick(g.u.keys), g.pick(g.u.vals))
 	case 0:
 		return fmt.Sprintf("setnonce %s %d", g.addr(), g.u.nonces[r.Intn(len(g.u.nonces))])
 	case 1:
@@ -184,6 +198,9 @@ func (g *G) Mutator() string {
 	case 17:
 		if r.Chance(1, 6) {
 			return fmt.Sprintf("subrefund %d", g.u.refunds[r.Intn(3)])
+		}
+		if r.Chance(1, 5) {
+			return "subrefund 0"
 		}
 		return fmt.Sprintf("addrefund %d", g.u.refunds[r.Intn(len(g.u.refunds))])
 	case 18:
@@ -280,10 +297,69 @@ func (g *G) BoundaryPair() (setup []string, before, after string) {
 	return
 }
 
+// QueryFor returns a reader aimed at what the mutator line `m` just wrote (same address / slot / key): random
+// queries over the universe rarely hit the one thing that changed, so the "true" / non-zero branches of the
+// readers were hardly reached.
+func (g *G) QueryFor(m string) string {
+	f := strings.Fields(m)
+	if len(f) < 2 {
+		return g.Query()
+	}
+	a := f[1]
+	pick := func(xs ...string) string { return xs[g.r.Intn(len(xs))] }
+	switch f[0] {
+	case "setnonce", "incnonce":
+		return pick("nonce "+a, "empty "+a, "exist "+a)
+	case "setdata", "setstate", "setstorage":
+		if len(f) < 3 {
+			return "exist " + a
+		}
+		if len(f[2]) == 64 {
+			return pick("getdata "+a+" "+f[2], "getstate "+a+" "+f[2], "committed "+a+" "+f[2], "allrefund "+a)
+		}
+		return pick("getdata "+a+" "+f[2], "empty "+a, "allrefund "+a)
+	case "setcode":
+		return pick("code "+a, "codesize "+a, "codehash "+a, "iscontract "+a)
+	case "suicide":
+		return pick("suicided "+a, "suicided "+a, "exist "+a, "bal "+a)
+	case "addbal", "subbal", "setbal":
+		return pick("bal "+a, "cantransfer "+a+" 1", "cantransfer "+a+" "+g.smallAmount())
+	case "transfer":
+		if len(f) > 2 {
+			return pick("bal "+a, "bal "+f[2])
+		}
+	case "addft", "subft", "setft":
+		if len(f) > 2 {
+			return pick("getft "+a+" "+f[2], "allrefund "+a, "empty "+a)
+		}
+	case "aladdr":
+		return "inal " + a
+	case "alslot":
+		if len(f) > 2 {
+			return pick("inalslot "+a+" "+f[2], "inal "+a)
+		}
+	case "tset":
+		if len(f) > 2 {
+			return "tget " + a + " " + f[2]
+		}
+	case "create":
+		return pick("exist "+a, "empty "+a)
+	case "addrefund", "subrefund":
+		return "refund"
+	case "addbinding":
+		if len(f) > 2 {
+			return pick("exist "+f[2], "allrefund "+f[2], "getdata "+f[2]+" 70")
+		}
+	}
+	return g.Query()
+}
+
 // Query returns one reader line.
 func (g *G) Query() string {
 	r := g.r
-	switch r.Intn(20) {
+	switch r.Intn(21) {
+	case 20:
+		return "allrefund " + g.addr()
 	case 0:
 		return "exist " + g.addr()
 	case 1:
